@@ -162,3 +162,27 @@ Proof.
   exists 1%nat. split; [exact H5|]. split; [reflexivity|]. split; [reflexivity|]. split; [intros _; exact H2|].
   split; [exact H6|]. split; [exact H7|exact H8].
 Qed.
+
+(* ---- the seeding premise of the per-call theorems: with offset = 0 the seeded state is the state itself; with offset = -1
+        at period 1 it is Linker.seeded (endogenous rows of the core and of A, B copied from period 0); the premises of
+        C08_linker_offset_seeds / _out_of_span_rejected hold of the running example ---- *)
+Example lx_seed_hypotheses_satisfiable :
+  linker_seed float fzero [0%nat; 1%nat] (lx_opts 0 6) 1 lx_state = (lx_state, None) /\
+  linker_seed float fzero [0%nat; 1%nat] (lx_opts_off (-1)) 1 lx_state = (Linker.seeded float fzero [0%nat; 1%nat] 1 0 lx_state, None) /\
+  linker_seed float fzero [0%nat; 1%nat] (lx_opts_off (-5)) 1 lx_state = (lx_state, Some IndexError) /\
+  linker_seed float fzero [0%nat; 7%nat] (lx_opts_off (-1)) 1 lx_state = (lx_state, Some KeyError) /\
+  offset (lx_opts_off (-1)) <> 0 /\ 0 <= Z.of_nat 1 + offset (lx_opts_off (-1)) < 3 /\
+  (forall id, In id (sel_ids float None lx_state) -> find_sub float id (l_subs lx_state) <> None) /\
+  NoDup [0%nat; 1%nat].
+Proof.
+  repeat split; try (vm_compute; congruence).
+  - intros id [<-|[<-|[]]]; vm_compute; discriminate.
+  - repeat constructor; cbn; intuition discriminate.
+Qed.
+
+(* ---- fix f5ef8bd: the linker's name must not be a submodel id ---- *)
+Example lx_init_name_clash :
+  linker_init_M 1%nat [(0%nat, mkSub (mkSpan SList [5; 6]) 0 0); (1%nat, mkSub (mkSpan SList [5; 7]) 0 0)] None = Raise DuplicateNameError /\
+  linker_init_M 1%nat [(1%nat, mkSub (mkSpan SList [5; 6]) 0 0)] (Some (mkSpan SList [5])) = Raise DuplicateNameError /\
+  linker_init_M 9%nat [(0%nat, mkSub (mkSpan SList [5; 6]) 1 0); (1%nat, mkSub (mkSpan SList [5; 6]) 0 2)] None = Ret (mkSpan SList [5; 6], 1, 2).
+Proof. repeat split. Qed.
